@@ -136,7 +136,9 @@ Assoc(v, s) ==
 Words == {"or", "and", "to", "div", "idiv", "mod", "union", "intersect", "except", "is"} \cup ValueComp \cup TypeOps
 WordEnd(s)   == s \in Words \cup {"x", "?"}
 WordStart(s) == s \in Words \cup {"x", "neg", "-", "f("}
-NeedSep == {<<a, b>> \in AllTokens \X AllTokens : WordEnd(a) /\ WordStart(b)}
+(* "/" directly followed by a leading "/" would fuse into the token "//" *)
+Fuses(a, b)  == a \in PathOps \cup RootOps /\ b \in RootOps
+NeedSep == {<<a, b>> \in AllTokens \X AllTokens : (WordEnd(a) /\ WordStart(b)) \/ Fuses(a, b)}
 
 (* ---- bracket structure ------------------------------------------------- *)
 RECURSIVE DepthVec(_, _)
@@ -246,13 +248,18 @@ GrammarTree(v, t) ==
 (*   st stack of <<open token, #operators when it was opened>>,              *)
 (*   n operators so far, g bracket groups "(" "f(" so far.                   *)
 (* A "(" group must contain an operator ("(a)" says nothing about grouping). *)
+(* "instance of T * - x": the '*' is the occurrence indicator of T, and the '-' behind it is then *)
+(* a BINARY minus: the text of <<instance, "*", neg>> is the text of another sentence, never generated *)
+AfterOccurrence(t) == Len(t) >= 2 /\ t[Len(t) - 1] \in {"instance", "treat"} /\ t[Len(t)] \in {"+", "*"}
+
 GenInit == [t |-> <<>>, m |-> "pre", st |-> <<>>, n |-> 0, g |-> 0]
 
 GenExt(s, A, maxOps, maxGroups) ==
   IF s.m \in {"pre", "step"} THEN
        {[s EXCEPT !.t = Append(@, "x"), !.m = "post"]}
        \cup (IF s.n < maxOps /\ s.m = "pre"
-             THEN {[s EXCEPT !.t = Append(@, p), !.n = @ + 1, !.m = IF p \in RootOps THEN "step" ELSE "pre"] : p \in A \cap PreOps}
+             THEN {[s EXCEPT !.t = Append(@, p), !.n = @ + 1, !.m = IF p \in RootOps THEN "step" ELSE "pre"] :
+                      p \in {q \in A \cap PreOps : ~(q \in {"neg", "pos"} /\ AfterOccurrence(s.t))}}
              ELSE {})
        \cup (IF s.g < maxGroups
              THEN {[s EXCEPT !.t = Append(@, o), !.g = @ + 1, !.m = "pre", !.st = Append(@, <<o, s.n>>)] : o \in A \cap GOpens}
